@@ -26,6 +26,14 @@ BytesLaw(x) ==
   /\ Len(e) = B64EncLen(Len(x)) /\ B64Allowed(e) /\ B64Dec(e) = x
   /\ \A i \in 1..Len(e) : ~B64Allowed(Damage(e, i, 42))                        \* '*' is never allowed
   /\ (Len(e) > 0 => ~B64Allowed(SubSeq(e, 1, Len(e) - 1)))                     \* nor a truncated text
+  /\ B64LaxDomain(e) /\ B64DecLax(e) = x                                        \* MIME reading agrees on strict text
+  /\ LET u == SubSeq(e, 1, Len(e) - B64Pads(e))                                  \* padding removed
+         w == Cat([i \in 1..Len(e) |-> <<e[i]>> \o (IF i % 2 = 0 THEN <<13, 10>> ELSE <<32>>)])   \* ignorable characters everywhere
+     IN  /\ B64LaxDomain(u) /\ B64DecLax(u) = x
+         /\ B64LaxDomain(w) /\ B64DecLax(w) = x
+         /\ B64DecLax(u \o <<10>>) = x /\ B64DecLax(<<10, 46>> \o u) = x
+         /\ (Len(u) > 0 => ~B64LaxDomain(u \o <<65>>) \/ B64DecLax(u \o <<65>>) # x \/ Len(u) % 4 = 3)
+  /\ ~B64LaxDomain(<<65>> \o e \o <<65>>) \/ Len(e) = 0 \/ B64Pads(e) = 0         \* data after the padding
   /\ QpAllowed(QpRef(x)) /\ QpDec(QpRef(x)) = x
   /\ QpAllowed(QpAllEsc(x)) /\ QpDec(QpAllEsc(x)) = x
   /\ (Len(x) > 0 => ~QpCharsOk(SubSeq(QpAllEsc(x), 1, 3 * Len(x) - 1)))        \* escape cut short
